@@ -690,6 +690,14 @@ class Exec:
             if f is None and traitn == "Into":
                 # blanket Into -> the crate's From impl for the target type
                 tgt = re.search(r"Into<(.*)>$", m.group(2))
+                if tgt and base_name(tgt.group(1)) == selfn:
+                    return args[0]                      # reflexive impl<T> From<T> for T
+                if tgt and args:
+                    rv = args[0]
+                    while isinstance(rv, Ref):
+                        rv = self.read_ref(rv)
+                    if isinstance(rv, Adt) and rv.ty == base_name(tgt.group(1)):
+                        return args[0]                  # generic caller (`impl Into<X>`) instantiated with X itself
                 if tgt:
                     f = self.find_impl("from", "From", base_name(tgt.group(1)))
             if f is not None:
@@ -1191,4 +1199,5 @@ def norm_fn(func):
     s = strip_generics(func.strip())
     s = s.replace("'_, ", "").replace("<'_>", "")
     s = re.sub(r"<impl \[[^\]]*\]>", "<impl [T]>", s)
+    s = re.sub(r"^Box::<impl [^<>]*>::", "Box::", s)          # Box::<impl Trait + 'static>::new
     return s
